@@ -26,12 +26,15 @@ NegotiatedR(o, l) == \E i, j \in 1..Len(o.l[l].gotR) : i < j /\ o.l[l].gotR[i] =
 P_WinnerReturned(o) == /\ \A l \in L(o) : (o.startedS /\ InSeq("go", o.l[l].sentS)) => o.resultS = l
                        /\ \A l \in L(o) : (o.startedR /\ HonestKind(o.l[l].kind) /\ NegotiatedR(o, l)) => o.resultR = l
 P_NoInternal(o) == o.internal = <<>>
+\* o.honestDue: the environment established an honest link, cut nothing, let no deadline strike and delivered everything that was
+\* written (computed by the harness from what it did itself): then both connect() calls have returned a link
+P_HonestWins(o) == o.honestDue => (o.resultS \in L(o) /\ o.resultR \in L(o))
 
 VARIABLE k
 Init == k = 0
 Next == k < Len(All) /\ k' = k + 1
         /\ PrintT(<<"OBS", All[k'].tid, <<P_AtMostOneGo(All[k']), P_GoOnlyAfterRH(All[k']), P_ReceiverNeedsGo(All[k']),
                                           P_SameLink(All[k']), P_KeyHoldersOnly(All[k']), P_OthersClosed(All[k']),
-                                          P_Deadline(All[k']), P_NoInternal(All[k']), P_WinnerReturned(All[k'])>>>>)
+                                          P_Deadline(All[k']), P_NoInternal(All[k']), P_WinnerReturned(All[k']), P_HonestWins(All[k'])>>>>)
 Spec == Init /\ [][Next]_k
 ====
